@@ -817,6 +817,15 @@ pub fn judge(base: &numbat::Context, env: &Env, e: &E) -> Result<&'static str, S
         return Err(format!("PANIC {} at {}", p.message, p.site()));
     }
     let Some(val) = got.value() else {
+        // the recorded late-binding reading may itself end in a run-time error (1 / gv(0))
+        let mut r2 = Ref { late_fn_refs: true, latest: env.clone(), fuel: 20_000, depth: 0 };
+        if let Err(Raise(m)) = r2.eval(e, env) {
+            let impl_err = got.err_string().unwrap_or_default().to_lowercase();
+            let same_error = (m == "division by zero" && impl_err.contains("division by zero")) || (m == "empty list" && impl_err.contains("empty"));
+            if same_error {
+                return Err(format!("CLASS:function-value-late-binding fails with `{}` but lexical scoping gives {} (under the late-binding reading of function values the program raises `{m}`)", got.err_string().unwrap_or_default(), show(&want)));
+            }
+        }
         return Err(format!("the language's rules give {} but evaluation fails: {}", show(&want), got.err_string().unwrap_or_else(|| "no value".into())));
     };
     if same(&want, val) {
